@@ -270,7 +270,7 @@ def correspondence(ctx):
                 'plus random programs up to 6 statements, nesting 3, 3 variables, reads in conditions, empty branches; each rendered to '
                 'Python, analysed by the real TIFA, compared with the Coq model, and EXECUTED under every branch-outcome vector '
                 '(<= 6 conditions) with a recording namespace to obtain the ground truth per read site. extended subset (while/for): '
-                'soundness against real executions with 0-2 iterations. non-trivial = at least one initialization issue.')
+                'soundness against real executions with 0-2 iterations; functions reading globals called at two points, and functions with a LOCAL named like a module variable that is assigned on one branch only. non-trivial = at least one initialization issue.')
 
 
 def flatten(block):
